@@ -19,6 +19,7 @@ import TypedpyModel.Drive.Sched
 import TypedpyModel.Drive.Pairs
 import TypedpyModel.Drive.Shortcut
 import TypedpyModel.Drive.Alias
+import TypedpyModel.Drive.SerdeX
 open Lean (Json)
 
 def dispatch (suite : String) (j : Json) : Except String Json :=
@@ -40,6 +41,7 @@ def dispatch (suite : String) (j : Json) : Except String Json :=
   | "pairs" => Typedpy.Drive.Pairs.run j
   | "shortcut" => Typedpy.Drive.Shortcut.run j
   | "alias" => Typedpy.Drive.Alias.run j
+  | "serdex" => Typedpy.Drive.SerdeX.run j
   | s => .error s!"unknown suite {s}"
 
 def handle (line : String) : String :=
